@@ -13,13 +13,14 @@ ASSUMPTIONS = [
     "H07a: previous session id 0 is outside the claim (illegal in SOME/IP-SD); the assertion is conditional on old_id >= 1 but the query ranges over 0..0xFFFF so that the hole cannot widen unnoticed",
     "H07b: histories of length <= K from the initial (empty) memory; H07a covers arbitrary memory by induction",
 ]
-REACH = {"H07a": ["h07a.checked"], "H07b": ["h07b.detected", "h07b.not-detected", "h07b.end"], "H07c": ["h07c.detected", "h07c.not-detected"]}
+REACH = {"H07a": ["h07a.checked"], "H07b": ["h07b.detected", "h07b.not-detected", "h07b.end"], "H07c": ["h07c.detected", "h07c.not-detected"], "H07d": ["h07d.two", "h07d.end"]}
 
 
 def bounds(tier):
     return {
         "H07a": "one check_received step from an arbitrary memory: 2 senders x 2 channels, key present/absent, old flag, old id 0..0xFFFF, new flag, new id 0..0xFFFF all symbolic; three foreign entries symbolic",
         "H07c": "one datagram (SD / non-SD / truncated; 2 senders x 2 channels) through ServiceDiscoveryProtocol.datagram_received from an arbitrary session memory (every (sender, channel) entry present or absent, flags and ids symbolic): the inductive step at protocol level - covers histories of any length incl. interference between channels and senders",
+        "H07d": "two SD datagrams (same sender on one or both channels, or two senders) handled in one loop iteration, from an arbitrary memory: every detection reaches all three components",
         "H07b": "K=%d SD datagrams through ServiceDiscoveryProtocol.datagram_received; per datagram: sender in {P,Q}, channel in {unicast,multicast}, kind in {SD, non-SD method, truncated SD payload}; session id 16-bit symbolic, reboot flag symbolic" % (4 if tier == "thorough" else 2),
     }
 
@@ -30,6 +31,9 @@ def cases(tier, seed):
         for ci in range(2):
             for kind in ("sd", "nonsd", "trunc"):
                 out.append({"h": "H07c", "step": [si, ci, kind]})
+    for s1, c1 in ((0, 0), (0, 1)):
+        for s2, c2 in ((0, 0), (0, 1), (1, 0)):
+            out.append({"h": "H07d", "steps": [[s1, c1], [s2, c2]]})
     K = 4 if tier == "thorough" else 2
     kinds = ["sd", "sd", "nonsd", "trunc"]  # alphabet per step: (sender, channel, kind)
     import itertools
@@ -183,6 +187,46 @@ def h07c(E, M, case):
             E.require(E.And(E.eq(inc[k][0], f), inc[k][1] == i), "entries of other senders / the other channel are untouched; the sender's entry becomes (flag, id)", {"key": repr(k)})
 
 
+def h07d(E, M, case):
+    """two SD datagrams handled in ONE loop iteration (e.g. the first multicast and the first
+    unicast message of a restarted peer), from an arbitrary memory"""
+    loop = new_loop(E)
+    prot = M.sd.ServiceDiscoveryProtocol(MC)
+    prot.transport = RecTransport(loop)
+    calls = {"discovery": [], "subscriber": [], "announcer": []}
+    for name in calls:
+        getattr(prot, name).reboot_detected = (lambda n: (lambda addr: calls[n].append(addr)))(name)
+    keys = [(s, mc) for s in SENDERS for mc in (False, True)]
+    mem = {}
+    for j, k in enumerate(keys):
+        mem[k] = (E.bool("m_flag%d" % j), E.int("m_id%d" % j, 1, 0xFFFF))
+        prot.session_storage.incoming[k] = mem[k]
+    offer = wire.sd_entry_bytes(wire.T_OFFER, 0, 0, 0, 0, 0x1234, 1, 1, 3, 0)
+    cbs, expect = [], []
+    for i, (si, ci) in enumerate(case["steps"]):
+        sender, mc = SENDERS[si], bool(ci)
+        flag, sid = E.bool("flag%d" % i), E.int("sid%d" % i, 1, 0xFFFF)
+        data = mk(E, wire.someip_bytes(wire.SD_SERVICE, wire.SD_METHOD, 0, sid, 1, 2, 0, wire.sd_payload(E.ite(flag, 0xC0, 0x40), [offer], [])))
+        of, oi = mem[(sender, mc)]
+        expect.append((sender, E.And(flag, E.Or(E.Not(of), oi >= sid))))
+        mem[(sender, mc)] = (flag, sid)
+        cbs.append(lambda d=data, s=sender, m=mc: prot.datagram_received(d, s, m))
+    loop.deliver(5, cbs, may_defer=False)
+    loop.settle()
+    loop_clean(E, loop)
+    E.reach("h07d.end")
+    both = E.And(expect[0][1], expect[1][1])
+    one = E.And(E.Or(expect[0][1], expect[1][1]), E.Not(both))
+    none = E.Not(E.Or(expect[0][1], expect[1][1]))
+    for n, c in calls.items():
+        E.observe([n, len(c)])
+        total = len(c)
+        E.require(E.And(E.Implies(both, total == 2), E.Implies(one, total == 1), E.Implies(none, total == 0)), "each detection reaches discovery, subscriber and announcer exactly once - also two detections within one loop iteration", {"component": n, "calls": total})
+        if total == 2:
+            E.reach("h07d.two")
+            E.require(c[0] == expect[0][0] and c[1] == expect[1][0], "with the respective sender's address, in order")
+
+
 def mk(E, items):
     if E.symbolic:
         from symx.symbytes import mk_bytes
@@ -191,4 +235,4 @@ def mk(E, items):
     return bytes(items)
 
 
-SCENARIOS = {"H07a": h07a, "H07b": h07b, "H07c": h07c}
+SCENARIOS = {"H07a": h07a, "H07b": h07b, "H07c": h07c, "H07d": h07d}
